@@ -1225,11 +1225,25 @@ func main() {
 		w.raceCase(c, "opener", c.Size(4000, 40000))
 		w.raceCase(c, "directory", c.Size(1500, 15000))
 		n := c.Size(2000, 20000)
+		// A case whose mirror graph falls out of step with the disk (the code under test operated along a path that
+		// does not exist inside the root, e.g. through a link it followed) used to kill the driver; it is now reported
+		// as an oracle failure of that case, so the violation comes with the failing case instead of
+		// no-failing-input-found. Never happens on the unchanged tree (it would have been a crash before).
+		guarded := func(i int, f func()) {
+			defer func() {
+				if r := recover(); r != nil {
+					filesystem.VerifSetFaultHook(nil)
+					c.Count("case-aborted")
+					c.Case(fmt.Sprintf("aborted %d", i), "aborted", "class=escape-or-harness-abort case "+strconv.Itoa(i)+": "+fmt.Sprint(r), "")
+				}
+			}()
+			f()
+		}
 		for i := 0; i < n; i++ {
 			if i%5 == 4 {
-				w.scanCase(c, i)
+				guarded(i, func() { w.scanCase(c, i) })
 			} else {
-				w.opsCase(c)
+				guarded(i, func() { w.opsCase(c) })
 			}
 		}
 	})
